@@ -268,6 +268,17 @@ def decorate(r, cells, seed):
             b.p.displacementY = 0.5 * (n + 1) + bi
             clad = b.getComponentByName("clad")
             clad.setNumberDensity(TRACERS[n % len(TRACERS)], 1.0e-5 * (n + 2 + bi))
+            if b.spatialGrid is not None:
+                # pin-lattice blocks: every kind of child placement is present - lattice sites (fuel, clad),
+                # a free-coordinate child OFF the block centre (duct), a single lattice site (intercoolant),
+                # the block centre (coolant)
+                from armi.reactor import grids
+
+                for c in b:
+                    if c.name == "duct":
+                        c.spatialLocator = grids.CoordinateLocation(0.5 + 0.125 * n, -0.25 - 0.0625 * bi, 0.0, b.spatialGrid)
+                    elif c.name == "intercoolant":
+                        c.spatialLocator = b.spatialGrid[1, 0, 0]
 
 
 def build_state(init):
@@ -1136,18 +1147,44 @@ def check_independence(S, M, opname):
 # canonical form, hidden state, enabled operations
 
 
+def _changer_state(ch, S):
+    """Everything a changer object remembers (its whole attribute dictionary), in a form that does not
+    depend on names or object identities: the search must not merge two states whose changers differ in
+    ANY attribute, known to this check or not."""
+    if ch is None:
+        return None
+    from armi.reactor import assemblies
+
+    def canon(v):
+        if v is None or isinstance(v, (bool, int, float, str)):
+            return v
+        if v is S.r:
+            return "<the reactor>"
+        if v is S.core:
+            return "<the core>"
+        if isinstance(v, assemblies.Assembly):
+            if v.parent is S.core:
+                return ["assembly-at"] + [int(x) for x in v.spatialLocator.indices[:2]]
+            return "<assembly not in the core>"
+        if isinstance(v, (list, tuple, set, frozenset)):
+            items = [canon(x) for x in v]
+            return sorted(items, key=repr) if isinstance(v, (set, frozenset)) or all(isinstance(x, list) and x[:1] == ["assembly-at"] for x in items) else items
+        if isinstance(v, dict):
+            return {str(k): canon(x) for k, x in sorted(v.items(), key=lambda kv: str(kv[0]))}
+        text = str(v)
+        if " at 0x" in text or "id:" in text:
+            text = "<%s>" % type(v).__name__
+        return "%s:%s" % (type(v).__name__, text)
+
+    return {k: canon(v) for k, v in sorted(vars(ch).items())}
+
+
 def hidden(S):
     from armi.reactor import parameters
 
-    def third(ch):
-        return None if ch is None else [bool(getattr(ch, "_newAssembliesAdded", None)), sorted(getattr(ch, "listOfVolIntegratedParamsToScale", None) or [])]
-
-    def edge(ch):
-        return None if ch is None else bool(getattr(ch, "_newAssembliesAdded", None))
-
     bit = parameters.SINCE_LAST_GEOMETRY_TRANSFORMATION
     flagged = sorted(pd.name for pd in S.core.getFirstBlock().p.paramDefs if pd.name in names()["volint"] and pd.assigned & bit)
-    return {"P3": third(S.P3), "F3": third(S.F3), "PE": edge(S.PE), "FE": edge(S.FE), "flags": flagged}
+    return {"P3": _changer_state(S.P3, S), "F3": _changer_state(S.F3, S), "PE": _changer_state(S.PE, S), "FE": _changer_state(S.FE, S), "flags": flagged}
 
 
 def model_digest(M):
